@@ -3,6 +3,7 @@ package props
 import (
 	"encoding/hex"
 	"fmt"
+	"os"
 	"reflect"
 	"strings"
 	"testing"
@@ -292,7 +293,53 @@ func c14NonTrivial(c c14Case) bool {
 	return unq && (quoted || len(kinds) == 2)
 }
 
-func init() { reg("C14", "split", checkC14) }
+func init() {
+	reg("C14", "split", checkC14)
+	reg("C14", "fresh", checkC14Fresh)
+}
+
+// c14Fresh: a new environment splits at <space><tab><newline>, whatever the
+// process environment says about IFS (XCU 2.5.3: the shell sets IFS when it
+// is invoked).
+type c14Fresh struct {
+	EnvIFS string `json:"env_ifs"` // IFS in the process environment when the ExecEnv is made
+	Value  string `json:"value"`
+}
+
+func checkC14Fresh(c c14Fresh) error {
+	old, had := os.LookupEnv("IFS")
+	os.Setenv("IFS", c.EnvIFS)
+	defer func() {
+		if had {
+			os.Setenv("IFS", old)
+		} else {
+			os.Unsetenv("IFS")
+		}
+	}()
+	env := interp.NewExecEnv("sh", "p q", "r")
+	env.Opts |= interp.NoGlob
+	env.Set("v", c.Value)
+	for _, w := range []struct {
+		word ast.Word
+		want []string
+	}{
+		{ast.Word{&ast.ParamExp{Name: &ast.Lit{Value: "v"}}}, ref.Split([]ref.Seg{{Text: c.Value}}, " \t\n", true)},
+		{ast.Word{&ast.Quote{Tok: `"`, Value: ast.Word{&ast.ParamExp{Name: &ast.Lit{Value: "*"}}}}}, []string{"p q r"}},
+	} {
+		var got []string
+		if err := guard(func() error {
+			var e error
+			got, e = env.Expand(w.word, 0)
+			return e
+		}); err != nil {
+			return fmt.Errorf("Expand in a new environment (IFS=%q in the process environment): %v", c.EnvIFS, err)
+		}
+		if !(len(got) == 0 && len(w.want) == 0) && !reflect.DeepEqual(got, w.want) {
+			return fmt.Errorf("a new environment, made with IFS=%q in the process environment, with v=%q: got %q, want %q (a new environment splits and joins with <space><tab><newline>)", c.EnvIFS, c.Value, got, w.want)
+		}
+	}
+	return nil
+}
 
 type c14IFS struct {
 	set     bool
@@ -539,6 +586,21 @@ func TestC14(t *testing.T) {
 		st.EvalN(n, n)
 		st.ClassN("word_that_assigns_ifs", n)
 		st.Note("\"$@\" with 1-3 positional parameters (empty ones among them) between 0-2 segments on either side, once or twice in a word, x 4 IFS settings; words that end in ${IFS:=value} with IFS unset or null beforehand (6 values), split with the value they assign; both as AST and as parsed source")
+	}
+
+	if sh == 0 {
+		k := 0
+		for _, e := range []string{":", "", ",x", "a"} {
+			for _, v := range []string{"a:b c", "x,y\tz", " lead", "a"} {
+				c := c14Fresh{EnvIFS: e, Value: v}
+				if err := checkC14Fresh(c); err != nil {
+					fail(t, "C14", "fresh", c, "%v", err)
+				}
+				k++
+			}
+		}
+		st.EvalN(int64(k), int64(k))
+		st.ClassN("new_environment_with_ifs_in_the_process_environment", int64(k))
 	}
 
 	// (a') results of arithmetic expansions are text of the word like any
